@@ -51,6 +51,7 @@ func runC08(p *Prog, r *Report) {
 	c08R9(p, r)
 	c08R10(p, r)
 	erasedErrorRequests(p, r, "C08-R12")
+	c08R13(p, r)
 	const r11 = "C08-R11"
 	r.Rule(r11, "lock balance in packages cred and ss2022: Lock/RLock only with the mutex not held by the function, Unlock/RUnlock only with the matching lock held, released at every exit (or by a deferred call) — the error returns of the credential operations included")
 	nb := lockBalance(p, r, r11, "cred", nil) + lockBalance(p, r, r11, "ss2022", nil)
@@ -1052,4 +1053,113 @@ func erasedErrorRequests(p *Prog, r *Report, rule string) int {
 	r.Count("erased_error_sites", n)
 	r.Floor(rule, 1)
 	return n
+}
+
+// c08R13: a load that reports success has put the credential maps in place. LoadFromFile has a
+// short-cut for unchanged content; the cached content starts out as the empty string, so an empty
+// store file looks "unchanged" on the very first load. If the short-cut can return success before any
+// map exists, the server is registered with nil maps and the first AddCredential — an API request —
+// panics on a nil-map store while holding the mutex (every later credential operation then blocks).
+func c08R13(p *Prog, r *Report) {
+	const rule = "C08-R13"
+	r.Rule(rule, "success of LoadFromFile means the maps exist: every return of LoadFromFile that may carry a nil error is dominated, for each map-typed field of ManagedServer that the credential operations store into, by an assignment of that field in this call, or lies behind the non-nil edge of a test of one of those fields (the unchanged-content short-cut is taken only once something was loaded), or the field is given a non-nil value wherever a ManagedServer is constructed")
+	fc := p.Inlined(p.Func("cred", "ManagedServer", "LoadFromFile"))
+	info := fc.Info()
+	recv := fc.RecvObj()
+	pkg := p.Pkg("cred")
+	// map fields of the receiver type that some method stores into by index
+	mapFields := map[string]bool{}
+	p.AllFuncs(pkg, func(m *FuncCtx) {
+		mr := m.RecvObj()
+		if mr == nil || namedTypeName(derefType(mr.Type())) != "ManagedServer" {
+			return
+		}
+		for _, c := range allCtxs(p, m) {
+			for _, v := range c.G.V {
+				as, ok := v.Node.(*ast.AssignStmt)
+				if !ok || v.Kind != VStmt {
+					continue
+				}
+				for _, l := range as.Lhs {
+					ix, isIx := ast.Unparen(l).(*ast.IndexExpr)
+					if !isIx {
+						continue
+					}
+					root, path, okp := pathOf(c.Info(), ix.X)
+					if okp && root == mr && path != "" {
+						if _, isMap := c.Info().TypeOf(ix.X).Underlying().(*types.Map); isMap {
+							mapFields[strings.TrimPrefix(path, ".")] = true
+						}
+					}
+				}
+			}
+		}
+	})
+	// fields made non-nil at every construction
+	alwaysMade := map[string]bool{}
+	for f := range mapFields {
+		alwaysMade[f] = true
+	}
+	nBuilt := 0
+	p.AllFuncs(pkg, func(top *FuncCtx) {
+		for _, c := range allCtxs(p, top) {
+			for _, bv := range builtValues(c, "ManagedServer") {
+				nBuilt++
+				for f := range mapFields {
+					val, has := bv.Fields[f]
+					if !has || isNilExpr(c.Info(), val) {
+						alwaysMade[f] = false
+					}
+				}
+			}
+		}
+	})
+	if nBuilt == 0 {
+		for f := range alwaysMade {
+			alwaysMade[f] = false
+		}
+	}
+	var nonNil []Edge
+	for f := range mapFields {
+		fld := f
+		nonNil = append(nonNil, fc.TestEdges(func(e ast.Expr) bool {
+			root, path, okp := pathOf(info, e)
+			return okp && root == recv && path == "."+fld
+		}, WantNonNil)...)
+	}
+	stores := map[string][]int{}
+	for _, v := range fc.G.V {
+		as, ok := v.Node.(*ast.AssignStmt)
+		if !ok || v.Kind != VStmt {
+			continue
+		}
+		for i, l := range as.Lhs {
+			root, path, okp := pathOf(info, l)
+			if okp && root == recv && mapFields[strings.TrimPrefix(path, ".")] {
+				if len(as.Rhs) == len(as.Lhs) && isNilExpr(info, as.Rhs[i]) {
+					continue
+				}
+				stores[strings.TrimPrefix(path, ".")] = append(stores[strings.TrimPrefix(path, ".")], v.ID)
+			}
+		}
+	}
+	n := 0
+	for _, ret := range fc.Returns() {
+		if fc.ErrAtReturn(ret) == ErrNonNil {
+			continue
+		}
+		var missing []string
+		for f := range mapFields {
+			if alwaysMade[f] || fc.G.Dominates(stores[f], ret) && len(stores[f]) > 0 || len(nonNil) > 0 && fc.G.EdgeDominates(nonNil, ret) {
+				continue
+			}
+			missing = append(missing, f)
+		}
+		sort.Strings(missing)
+		n++
+		r.Check(len(missing) == 0, rule, fmt.Sprintf("cred.(*ManagedServer).LoadFromFile:success-return#%d-has-maps", n), p.posStr(fc.G.V[ret].Node.Pos()), "the maps were assigned in this call, or were already in place",
+			"LoadFromFile can report success here without "+strings.Join(missing, ", ")+" ever having been created (the unchanged-content short-cut matches an empty store file on the first load, because the cached content starts as the empty string): the server is registered with nil maps and the first AddCredential panics on a nil-map store while holding the mutex")
+	}
+	r.Check(len(mapFields) >= 2, rule, "cred.(*ManagedServer):credential-maps-found", p.posStr(fc.Body.Pos()), "the credential maps were found", fmt.Sprintf("only %d map fields of ManagedServer with element stores found", len(mapFields)))
+	r.Floor(rule, 2)
 }
